@@ -265,6 +265,26 @@ func structEdits(b *Built, f *refxz.File, r *sim.Rng) []structEdit {
 			refxz.Reseal(img, ftSpan)
 			add("reserved-stream-flags", tag+" high nibble", img)
 		}
+		// reserved bits / foreign ids in the header only and in the footer only
+		// (each side individually re-sealed; the other side untouched)
+		for _, side := range []string{"header", "footer"} {
+			off, span := st.Offset+6, hdrSpan
+			if side == "footer" {
+				off, span = st.FooterOffset+8, ftSpan
+			}
+			img := clone()
+			img[off+1] |= 0x10 << uint(r.Intn(4))
+			refxz.Reseal(img, span)
+			add("reserved-stream-flags", tag+" high nibble in the "+side+" only", img)
+			img = clone()
+			img[off] = byte(1 << uint(r.Intn(8)))
+			refxz.Reseal(img, span)
+			add("reserved-stream-flags", tag+" first flag byte in the "+side+" only", img)
+			img = clone()
+			img[off+1] = sim.Pick(r, []byte{0x02, 0x03, 0x05, 0x0b, 0x0f})
+			refxz.Reseal(img, span)
+			add("unsupported-check-id", tag+" in the "+side+" only", img)
+		}
 		// unsupported check ids, consistently
 		for _, id := range []byte{0x02, 0x03, 0x05, 0x09, 0x0b, 0x0f} {
 			img := clone()
